@@ -11,6 +11,7 @@ import (
 	"strings"
 	"time"
 
+	cfevesting "github.com/chain4energy/c4e-chain/x/cfevesting"
 	vestingkeeper "github.com/chain4energy/c4e-chain/x/cfevesting/keeper"
 	vestingtypes "github.com/chain4energy/c4e-chain/x/cfevesting/types"
 	sdk "github.com/cosmos/cosmos-sdk/types"
@@ -25,7 +26,7 @@ type vestMachine struct {
 	// observations for non-triviality
 	acceptedSend, withdrawAfterLockEnd, rejectedAfterImplicitWithdraw, rejected int
 	exactLockEnd, maturedAndLocked, multiMaturePaid, fracFree, exactRemainder   int
-	restartMixedUnits, denomProposals, upperSpelled                             int
+	restartMixedUnits, denomProposals, upperSpelled, genesisPools               int
 	created                                                                     []sdk.AccAddress // vesting accounts created so far
 }
 
@@ -615,6 +616,40 @@ func (m *vestMachine) actDenomProposal() {
 	m.note("governance denom proposal uatom -> ok=%v", res.OK())
 	m.denomProposals++
 	m.afterStep("denom proposal", res, dg)
+}
+
+// seedGenesisPools starts the history from a genesis that already holds pools (flagged as genesis
+// pools) for some owners; the genesis file spells an owner's address in lower or in upper case.
+func (m *vestMachine) seedGenesisPools() {
+	t := m.t
+	if rapid.IntRange(0, 2).Draw(t, "genesisPools") != 0 {
+		return
+	}
+	gs := cfevesting.ExportGenesis(m.v.Ctx, m.v.App.CfevestingKeeper)
+	total := sdk.ZeroInt()
+	nOwners := rapid.IntRange(1, 2).Draw(t, "genesisOwners")
+	for oi := 0; oi < nOwners; oi++ {
+		owner := KeyAcc(vestOwners[oi]).Addr
+		rec := &vestingtypes.AccountVestingPools{Owner: m.spell(fmt.Sprintf("genesisOwner%d", oi), owner)}
+		for i := 0; i < rapid.IntRange(1, 2).Draw(t, fmt.Sprintf("genesisOwner%d_n", oi)); i++ {
+			l := fmt.Sprintf("gen%d_%d", oi, i)
+			vt := m.v.VTypes[rapid.IntRange(0, len(m.v.VTypes)-1).Draw(t, l+"_vt")]
+			amt := sdk.NewIntFromBigInt(genAmount(t, l+"_amt", 22, true))
+			durs := []int64{secNs, 60 * secNs, dayNs, 30 * dayNs, yearNs}
+			dur := durs[rapid.IntRange(0, len(durs)-1).Draw(t, l+"_dur")]
+			rec.VestingPools = append(rec.VestingPools, &vestingtypes.VestingPool{Name: fmt.Sprintf("g%d", i), VestingType: vt.Name, LockStart: nsTime(m.v.NowNs),
+				LockEnd: nsTime(m.v.NowNs + dur), InitiallyLocked: amt, Withdrawn: sdk.ZeroInt(), Sent: sdk.ZeroInt(), GenesisPool: true})
+			total = total.Add(amt)
+		}
+		gs.AccountVestingPools = append(gs.AccountVestingPools, rec)
+	}
+	if err := gs.Validate(); err != nil {
+		m.fail("harness: generated vesting genesis does not validate: %v", err)
+	}
+	FundModule(m.v.App, m.v.Ctx, vestingtypes.ModuleName, sdk.NewCoins(sdk.NewCoin(Denom, total)))
+	cfevesting.InitGenesis(m.v.Ctx, m.v.App.CfevestingKeeper, *gs, m.v.App.AccountKeeper, m.v.App.BankKeeper, m.v.App.StakingKeeper)
+	m.genesisPools++
+	m.note("genesis pools %s", jsonStr(gs.AccountVestingPools))
 }
 
 // seedPools gives every owner a few pools with distinct lock ends so that short histories already
